@@ -10,13 +10,15 @@
 (***************************************************************************)
 EXTENDS Naturals, Sequences, FiniteSets, TLC
 
-Faults == {"none", "invalid", "config", "bind", "reject", "uploads", "disconnect_create", "disconnect_wait", "disconnect_unsub"}
+Faults == {"none", "invalid", "config", "bind", "reject", "uploads", "disconnect_create", "disconnect_wait", "disconnect_unsub", "cancel_wait"}
 
 VARIABLES
   cfgNow,    \* the configuration is available when listen() is called (no Deferred to wait for)
   fault,     \* the fault the environment will inject in this run
+  others,    \* somebody else on this connection listens to HS_DESC events too (the application, another creation): giving up
+             \* our subscription needs no exchange with Tor then
   step,      \* "idle" | "config" | "create" | "wait" | "unsub" | "done" | "failed"
-  pendOut,   \* the outcome of the descriptor wait, delivered once the HS_DESC subscription has been given up ("" | "port" | "uploads")
+  pendOut,   \* the outcome of the descriptor wait, delivered once the HS_DESC subscription has been given up ("" | "port" | "uploads" | "cancel")
   localOpen, \* a local listener is open
   loop,      \* it was bound on the loopback interface
   asked,     \* the creation command has been written (with the mapping public -> 127.0.0.1:<bound port>)
@@ -26,16 +28,16 @@ VARIABLES
   nres,      \* times the result fired
   stopped    \* stopListening() was called on the returned port object
 
-vars == <<cfgNow, fault, step, pendOut, localOpen, loop, asked, exists, result, why, nres, stopped>>
+vars == <<cfgNow, fault, others, step, pendOut, localOpen, loop, asked, exists, result, why, nres, stopped>>
 
-Init == /\ cfgNow \in BOOLEAN /\ fault \in Faults /\ (cfgNow => fault # "config") /\ step = "idle" /\ pendOut = "" /\ localOpen = FALSE /\ loop = FALSE /\ asked = FALSE /\ exists = FALSE
+Init == /\ cfgNow \in BOOLEAN /\ fault \in Faults /\ (cfgNow => fault # "config") /\ others \in BOOLEAN /\ (others => fault # "disconnect_unsub") /\ step = "idle" /\ pendOut = "" /\ localOpen = FALSE /\ loop = FALSE /\ asked = FALSE /\ exists = FALSE
         /\ result = "p" /\ why = "" /\ nres = 0 /\ stopped = FALSE
 
 Fail(w) == result' = "err" /\ why' = w /\ nres' = nres + 1 /\ step' = "failed"
 
 \* an invalid combination of options is refused when the endpoint is built: nothing is started
 Refuse == /\ step = "idle" /\ fault = "invalid" /\ Fail("invalid")
-          /\ UNCHANGED <<cfgNow, fault, pendOut, localOpen, loop, asked, exists, stopped>>
+          /\ UNCHANGED <<cfgNow, fault, others, pendOut, localOpen, loop, asked, exists, stopped>>
 
 \* once the configuration is there the local listener is bound and the creation command goes out,
 \* all in one reactor turn
@@ -44,12 +46,12 @@ Proceed ==
      ELSE IF fault = "bind" THEN Fail("bind") /\ UNCHANGED <<localOpen, loop, asked>>
      ELSE /\ localOpen' = TRUE /\ loop' = TRUE /\ asked' = TRUE /\ step' = "create"
           /\ UNCHANGED <<result, why, nres>>
-  /\ UNCHANGED <<cfgNow, fault, pendOut, exists, stopped>>
+  /\ UNCHANGED <<cfgNow, fault, others, pendOut, exists, stopped>>
 
 \* listen(factory) is called; the configuration may be a Deferred still pending
 Listen == /\ step = "idle" /\ fault # "invalid"
           /\ IF cfgNow THEN Proceed
-             ELSE step' = "config" /\ UNCHANGED <<cfgNow, fault, pendOut, localOpen, loop, asked, exists, result, why, nres, stopped>>
+             ELSE step' = "config" /\ UNCHANGED <<cfgNow, fault, others, pendOut, localOpen, loop, asked, exists, result, why, nres, stopped>>
 
 \* the configuration becomes available (or fails)
 ConfigReady == step = "config" /\ Proceed
@@ -59,7 +61,7 @@ CreateReply ==
   /\ step = "create" /\ fault \notin {"disconnect_create"}
   /\ IF fault = "reject" THEN Fail("reject") /\ localOpen' = FALSE /\ UNCHANGED exists
      ELSE exists' = TRUE /\ step' = "wait" /\ UNCHANGED <<localOpen, result, why, nres>>
-  /\ UNCHANGED <<cfgNow, fault, pendOut, loop, asked, stopped>>
+  /\ UNCHANGED <<cfgNow, fault, others, pendOut, loop, asked, stopped>>
 
 \* the control connection is lost while the creation command / the descriptor wait / the final
 \* unsubscription is outstanding
@@ -68,31 +70,47 @@ Disconnect ==
      \/ step = "wait" /\ fault = "disconnect_wait"
      \/ step = "unsub" /\ fault = "disconnect_unsub"
   /\ Fail("disconnect") /\ localOpen' = FALSE
-  /\ UNCHANGED <<cfgNow, fault, pendOut, loop, asked, exists, stopped>>
+  /\ UNCHANGED <<cfgNow, fault, others, pendOut, loop, asked, exists, stopped>>
 
 \* the descriptor wait ends: one upload confirmed, or every upload failed.  The HS_DESC subscription is given
 \* up (a control-port exchange) before the outcome is delivered
 WaitOver ==
-  /\ step = "wait" /\ fault # "disconnect_wait"
-  /\ step' = "unsub" /\ pendOut' = IF fault = "uploads" THEN "uploads" ELSE "port"
-  /\ UNCHANGED <<cfgNow, fault, localOpen, loop, asked, exists, result, why, nres, stopped>>
+  /\ step = "wait" /\ fault \notin {"disconnect_wait", "cancel_wait"}
+  /\ IF others
+     THEN \* nothing to exchange with Tor: the outcome is delivered at once
+          /\ IF fault = "uploads" THEN Fail("uploads") /\ localOpen' = FALSE
+             ELSE result' = "port" /\ nres' = nres + 1 /\ step' = "done" /\ UNCHANGED <<localOpen, why>>
+          /\ UNCHANGED pendOut
+     ELSE /\ step' = "unsub" /\ pendOut' = IF fault = "uploads" THEN "uploads" ELSE "port"
+          /\ UNCHANGED <<localOpen, result, why, nres>>
+  /\ UNCHANGED <<cfgNow, fault, others, loop, asked, exists, stopped>>
+
+\* the caller calls listen() off while the descriptor wait is going on (cancels the Deferred, e.g. through a timeout it
+\* put on it): the wait ends there; the subscription is given up as after any wait, then listen fails and the local
+\* listener is closed
+Cancel ==
+  /\ step = "wait" /\ fault = "cancel_wait"
+  /\ IF others
+     THEN Fail("cancel") /\ localOpen' = FALSE /\ UNCHANGED pendOut
+     ELSE step' = "unsub" /\ pendOut' = "cancel" /\ UNCHANGED <<localOpen, result, why, nres>>
+  /\ UNCHANGED <<cfgNow, fault, others, loop, asked, exists, stopped>>
 
 \* Tor acknowledges the unsubscription
 UnsubAck ==
   /\ step = "unsub" /\ fault # "disconnect_unsub"
-  /\ IF pendOut = "uploads" THEN Fail("uploads") /\ localOpen' = FALSE
+  /\ IF pendOut \in {"uploads", "cancel"} THEN Fail(pendOut) /\ localOpen' = FALSE
      ELSE result' = "port" /\ nres' = nres + 1 /\ step' = "done" /\ UNCHANGED <<localOpen, why>>
-  /\ UNCHANGED <<cfgNow, fault, pendOut, loop, asked, exists, stopped>>
+  /\ UNCHANGED <<cfgNow, fault, others, pendOut, loop, asked, exists, stopped>>
 
 StopListening ==
   /\ step = "done" /\ ~stopped /\ stopped' = TRUE /\ localOpen' = FALSE
-  /\ UNCHANGED <<cfgNow, fault, step, pendOut, loop, asked, exists, result, why, nres>>
+  /\ UNCHANGED <<cfgNow, fault, others, step, pendOut, loop, asked, exists, result, why, nres>>
 
 \* the application starts the returned port again (IListeningPort.startListening): the loopback listener is back,
 \* and a later stopListening closes it again
 StartListening ==
   /\ step = "done" /\ stopped /\ stopped' = FALSE /\ localOpen' = TRUE
-  /\ UNCHANGED <<cfgNow, fault, step, pendOut, loop, asked, exists, result, why, nres>>
+  /\ UNCHANGED <<cfgNow, fault, others, step, pendOut, loop, asked, exists, result, why, nres>>
 
 \* descriptor events of another onion service on the same Tor arrive: nothing changes for this listen()
 Foreign == UNCHANGED vars
@@ -100,7 +118,7 @@ Foreign == UNCHANGED vars
 \* Tor reports it with the same event word and our address; it is not an upload and decides nothing
 FetchFailed == UNCHANGED vars
 
-Next == Foreign \/ FetchFailed \/ Refuse \/ Listen \/ ConfigReady \/ CreateReply \/ Disconnect \/ WaitOver \/ UnsubAck \/ StopListening \/ StartListening
+Next == Foreign \/ FetchFailed \/ Refuse \/ Listen \/ ConfigReady \/ CreateReply \/ Disconnect \/ WaitOver \/ Cancel \/ UnsubAck \/ StopListening \/ StartListening
 Spec == Init /\ [][Next]_vars
 
 ----------------------------------------------------------------------------
@@ -111,7 +129,7 @@ AskedAfterBind == asked => loop
 ResolvesLast == result = "port" => exists /\ step = "done"
 \* C17: a failure reports the injected fault and leaves no local listener open
 NoLeak == result = "err" => ~localOpen
-FailureIsInjected == result = "err" => why = (IF fault \in {"disconnect_create", "disconnect_wait", "disconnect_unsub"} THEN "disconnect" ELSE fault)
+FailureIsInjected == result = "err" => why = (IF fault \in {"disconnect_create", "disconnect_wait", "disconnect_unsub"} THEN "disconnect" ELSE IF fault = "cancel_wait" THEN "cancel" ELSE fault)
 Once == nres <= 1
 StopCloses == stopped => ~localOpen
 TypeOK == step \in {"idle", "config", "create", "wait", "unsub", "done", "failed"}
